@@ -130,7 +130,7 @@ def run_rules(prop, rules, tier, seed, repo=None, only=None):
         except Exception:  # noqa
             ctx.error("internal", None, traceback.format_exc(limit=8))
         n = len(ctx.obls) - n0
-        if n < floor:
+        if n < floor and not any(o.status != "ok" for o in ctx.obls[n0:]):
             ctx.error(
                 "floor",
                 None,
